@@ -22,6 +22,7 @@ inductive GErr where
   | precond       -- PreconditionsAreNotMet
   | arg           -- InvalidArgument
   | initialized   -- GTStateHasBeenInitialized
+  | divZero       -- Rust panic: `ts / 0` in `get_time_window_index` (uninitialised vault)
   deriving Repr, DecidableEq
 
 structure Gt where
@@ -166,12 +167,14 @@ def vaultInit (v : Vault) (now : Int) (tw : Nat) : Except GErr Vault :=
 def validateConfirmable (v : Vault) (now : Int) : Except GErr Unit :=
   if !v.initialized then .error .precond
   else if v.confirmed then .error .precond
+  else if v.timeWindow = 0 then .error .divZero
   else if windowIndex now v.timeWindow > windowIndex v.ts v.timeWindow then .ok ()
   else .error .precond
 
 /-- `GtExchangeVault::validate_depositable`. -/
 def validateDepositable (v : Vault) (now : Int) : Except GErr Unit :=
   if v.confirmed then .error .precond
+  else if v.timeWindow = 0 then .error .divZero
   else if windowIndex now v.timeWindow = windowIndex v.ts v.timeWindow then .ok ()
   else .error .arg
 
